@@ -55,7 +55,7 @@ def gen_case(r, cid, long_ok=True):
             lines.append("U %d %s" % (c, hx(ch)))
             subs.discard((c, ch))
         else:
-            lines.append("%s %d" % ("D" if r.random() < 0.6 else "K", c))
+            lines.append("%s %d" % ("D" if r.random() < 0.5 else "K", c))
             live.remove(c)
             subs = {(a, b) for (a, b) in subs if a != c}
             if r.random() < 0.5:
